@@ -92,6 +92,13 @@ pub struct VoiceOpts {
     /// the trees of every stream model (and with them their PDF blocks) are written in
     /// descending state order: a PDF block belongs to the tree at the same *position*
     pub trees_reversed: bool,
+    /// vector length of the (MSD) log-F0 stream; 1 in every real voice, but the format allows more
+    /// (the engine reads component 0)
+    pub lf0_vlen: usize,
+    /// the third (low-pass) stream has a GV model as well
+    pub gv_lpf: bool,
+    /// the static window of the low-pass stream is written zero-padded ("3 0.0 1.0 0.0")
+    pub lpf_win_padded: bool,
 }
 
 pub const WINDOW_SETS: [&[&[f64]]; 10] = [
@@ -143,9 +150,12 @@ impl VoiceOpts {
             win_tight: rng.chance(0.4),
             shuffle_nodes: rng.chance(0.4),
             varying_regex_root: false,
-            dur_leaves: if rng.chance(0.15) { Some(*rng.pick(&[10usize, 10, 13, 32, 9])) } else { None },
+            dur_leaves: if rng.chance(0.15) { Some(*rng.pick(&[10usize, 10, 13, 32, 9, 70, 100])) } else { None },
             opt_order: rng.below(6),
             trees_reversed: rng.chance(0.25),
+            lf0_vlen: 1,
+            gv_lpf: rng.chance(0.1),
+            lpf_win_padded: rng.chance(0.1),
         }
     }
     /// small and fast: for interpreters (Miri) and exhaustive histories
@@ -176,14 +186,17 @@ impl VoiceOpts {
             dur_leaves: None,
             opt_order: 0,
             trees_reversed: false,
+            lf0_vlen: 1,
+            gv_lpf: false,
+            lpf_win_padded: false,
         }
     }
     pub fn describe(&self) -> String {
         format!(
-            "streams={} nstate={} stage={} ln_gain={} mcp={} lpf={} win=({},{}) gv=({},{}) rate={} fp={} alpha={} depth={} transparent={} quote={} regex_root={} win_tight={} shuffle_nodes={} opt_order={} trees_reversed={}",
+            "streams={} nstate={} stage={} ln_gain={} mcp={} lpf={} win=({},{}) gv=({},{}) rate={} fp={} alpha={} depth={} transparent={} quote={} regex_root={} win_tight={} shuffle_nodes={} opt_order={} trees_reversed={} gv_lpf={} lpf_pad={}",
             self.nstreams, self.nstate, self.stage, self.ln_gain as u8, self.mcp_len, self.lpf_len,
             self.win_mcp, self.win_lf0, self.gv_mcp as u8, self.gv_lf0 as u8, self.rate, self.fperiod,
-            self.alpha, self.max_depth, self.transparent as u8, self.quote_mode, self.regex_root as u8, self.win_tight as u8, self.shuffle_nodes as u8, self.opt_order, self.trees_reversed as u8
+            self.alpha, self.max_depth, self.transparent as u8, self.quote_mode, self.regex_root as u8, self.win_tight as u8, self.shuffle_nodes as u8, self.opt_order, self.trees_reversed as u8, self.gv_lpf as u8, self.lpf_win_padded as u8
         )
     }
 }
@@ -370,8 +383,11 @@ pub fn generate(opts: &VoiceOpts, pool: &QuestionPool, rng: &mut Rng) -> VoiceSp
         // chain of n-1 questions: leaf k hangs off the "yes" side of question k
         let mut node = NodeSpec::Leaf(n);
         let mut used: Vec<(String, Vec<String>)> = Vec::new();
+        // (a long chain cycles through three questions only, so that a label answering "no" to
+        // those three walks the whole chain down to the last leaf)
+        let few: Vec<(String, Vec<String>)> = (0..3).map(|_| rng.pick(&pool.all).clone()).collect();
         for k in (1..n).rev() {
-            let q = rng.pick(&pool.all).clone();
+            let q = if n >= 64 { few[k % 3].clone() } else { rng.pick(&pool.all).clone() };
             node = NodeSpec::Node { q: q.0.clone(), no: Box::new(node), yes: Box::new(NodeSpec::Leaf(k)) };
             if !used.iter().any(|u| u.0 == q.0) {
                 used.push(q);
@@ -499,26 +515,25 @@ pub fn generate(opts: &VoiceOpts, pool: &QuestionPool, rng: &mut Rng) -> VoiceSp
     // ---- log F0 (MSD)
     let wins = window_set(opts.win_lf0);
     let nwin = wins.len();
-    let lf0_model = gen_model(rng, pool, "lf0_s", &states, nwin * 2 + 1, opts.max_depth, false, extra_root, |rng, _| {
-        let mut v = vec![0f32; nwin * 2 + 1];
+    let lv = opts.lf0_vlen.max(1);
+    let lf0_model = gen_model(rng, pool, "lf0_s", &states, lv * nwin * 2 + 1, opts.max_depth, false, extra_root, |rng, _| {
+        let mut v = vec![0f32; lv * nwin * 2 + 1];
         let kind = rng.below(10);
         if kind == 0 {
             // the shape real voices use for unvoiced states
-            for w in 0..nwin {
-                v[w] = 0.0;
-                v[nwin + w] = 1.0;
+            for j in 0..lv * nwin {
+                v[j] = 0.0;
+                v[lv * nwin + j] = 1.0;
             }
-            v[2 * nwin] = 0.05;
+            v[2 * lv * nwin] = 0.05;
         } else {
-            v[0] = f32r(rng, 4.4, 6.0);
-            for w in 1..nwin {
-                v[w] = f32r(rng, -0.03, 0.03);
+            for w in 0..nwin {
+                for c in 0..lv {
+                    v[w * lv + c] = if w == 0 { f32r(rng, 4.4, 6.0) } else { f32r(rng, -0.03, 0.03) };
+                    v[lv * nwin + w * lv + c] = if w == 0 { f32r(rng, 0.002, 0.05) } else { f32r(rng, 0.0005, 0.02) };
+                }
             }
-            v[nwin] = f32r(rng, 0.002, 0.05);
-            for w in 1..nwin {
-                v[nwin + w] = f32r(rng, 0.0005, 0.02);
-            }
-            v[2 * nwin] = match rng.below(10) {
+            v[2 * lv * nwin] = match rng.below(10) {
                 0 => 0.5,
                 1 => 0.25,
                 2 => 0.75,
@@ -540,7 +555,7 @@ pub fn generate(opts: &VoiceOpts, pool: &QuestionPool, rng: &mut Rng) -> VoiceSp
     };
     streams.push(StreamSpec {
         name: "LF0".into(),
-        vector_length: 1,
+        vector_length: lv,
         is_msd: true,
         use_gv: gv_lf0.is_some(),
         options: vec![],
@@ -566,15 +581,24 @@ pub fn generate(opts: &VoiceOpts, pool: &QuestionPool, rng: &mut Rng) -> VoiceSp
             }
             v
         });
+        let gv_lpf = if opts.gv_lpf {
+            Some(gen_model(rng, pool, "gv_lpf_", &[2], n * 2, 0, false, None, |rng, _| {
+                let mut v: Vec<f32> = (0..n).map(|_| f32r(rng, 1e-4, 5e-3)).collect();
+                v.extend((0..n).map(|_| f32r(rng, 1e-6, 1e-4)));
+                v
+            }))
+        } else {
+            None
+        };
         streams.push(StreamSpec {
             name: "LPF".into(),
             vector_length: n,
             is_msd: false,
-            use_gv: false,
+            use_gv: gv_lpf.is_some(),
             options: vec![],
-            windows: vec![vec![1.0]],
+            windows: if opts.lpf_win_padded { vec![vec![0.0, 1.0, 0.0]] } else { vec![vec![1.0]] },
             model: lpf_model,
-            gv: None,
+            gv: gv_lpf,
         });
     }
 
